@@ -10,6 +10,8 @@ import (
 	"fmt"
 	"os"
 	"strings"
+	"sync"
+	"sync/atomic"
 
 	"github.com/wollac/iota-crypto-demo/pkg/bip39"
 
@@ -20,7 +22,7 @@ import (
 func init() {
 	fw.Register(&fw.Prop{
 		ID: "C09",
-		Rule: "seed: valid mnemonics of all 13 lengths in both lists (given directly or parsed from a string joined by various white space) x passphrases from the corpus produced by tools/nfkd_corpus.py (python unicodedata NFKD; empty, ASCII, composed/decomposed accents, runs of combining marks, ligatures, full-width forms, Hangul, kana with dakuten, 1..200 code points; every character assigned since Unicode 3.2 that changes under NFKD appears): the 64 bytes must equal own PBKDF2-HMAC-SHA512(2048, words joined by single spaces, \"mnemonic\"+python-NFKD(passphrase)); invalid mnemonics must give an error and no seed. parse: words in variant forms (as is, NFC, NFD, NFKC) joined by random runs of Unicode white space must parse to the python-NFKD words; parse(print(parse(s))) == parse(s) and the text (un)marshalers agree, on arbitrary strings. " +
+		Rule: "seed: valid mnemonics of all 13 lengths in both lists (given directly or parsed from a string joined by various white space) x passphrases from the corpus produced by tools/nfkd_corpus.py (python unicodedata NFKD; empty, ASCII, composed/decomposed accents, runs of combining marks, ligatures, full-width forms, Hangul, kana with dakuten, 1..200 code points; every character assigned since Unicode 3.2 that changes under NFKD appears): the 64 bytes must equal own PBKDF2-HMAC-SHA512(2048, words joined by single spaces, \"mnemonic\"+python-NFKD(passphrase)); invalid mnemonics must give an error and no seed; seed_sequence: a valid sentence, then the same printed form split into other elements, then the same sentence after SetWordList(other list) (both invalid), then back; concurrent: 8 goroutines decode sentences of all 13 lengths at once. parse: words in variant forms (as is, NFC, NFD, NFKC) joined by random runs of Unicode white space must parse to the python-NFKD words; parse(print(parse(s))) == parse(s) and the text (un)marshalers agree, on arbitrary strings; UnmarshalText is also called on buffers that the caller overwrites afterwards. " +
 			"Non-trivial: seed cases whose passphrase changes under NFKD; parser inputs containing a non-ASCII byte.",
 		Assumptions: []string{"python3 unicodedata NFKD (independent of golang.org/x/text)", "HMAC-SHA512 of the Go standard library", "own PBKDF2 loop and bit-level model in harness/oracle/bip39m (self-tested on Trezor vectors in both languages)", "characters limited to those assigned since Unicode 3.2 outside the CJK compatibility ideograph blocks (normalization stability)"},
 		SelfTest:    bip39m.SelfTest,
@@ -33,12 +35,16 @@ func init() {
 				return map[string]interface{}{"list": lang(p[0][0]), "entropy": fw.Hex(p[1]), "separator": fmt.Sprintf("%q", seps[p[2][0]]), "passphrase": fmt.Sprintf("%+q", string(p[3])), "nfkd_by_python": fmt.Sprintf("%+q", string(p[4]))}
 			case "seed_invalid":
 				return map[string]interface{}{"list": lang(p[0][0]), "words": strings.Split(string(p[1]), "\x00"), "passphrase": fmt.Sprintf("%+q", string(p[2]))}
+			case "seed_sequence":
+				return map[string]interface{}{"list": lang(p[0][0]), "entropy": fw.Hex(p[1]), "passphrase": fmt.Sprintf("%+q", string(p[2])), "scenario": "valid sentence; same printed form in different elements; SetWordList(other list); back"}
+			case "concurrent":
+				return map[string]interface{}{"list": lang(p[0][0]), "seed": fw.GetU64(p[1]), "scenario": "8 goroutines call MnemonicToEntropy/MnemonicToSeed on sentences of all 13 lengths"}
 			case "parse":
 				return map[string]interface{}{"input": fmt.Sprintf("%+q", string(p[0])), "expected_words": fmt.Sprintf("%+q", strings.Split(string(p[1]), "\x00"))}
 			}
 			return map[string]interface{}{"input": fmt.Sprintf("%+q", string(p[0]))}
 		},
-		Required: []string{"seed ok", "seed ok, passphrase changed by NFKD", "invalid mnemonic refused", "parse ok", "parse idempotent"},
+		Required: []string{"seed sequences with list switches", "concurrent executions", "seed ok", "seed ok, passphrase changed by NFKD", "invalid mnemonic refused", "parse ok", "parse idempotent"},
 	})
 }
 
@@ -117,6 +123,10 @@ func judge(class string, key []byte, o *fw.Obs) {
 		if changed {
 			o.Count("seed ok, passphrase changed by NFKD")
 		}
+	case "seed_sequence":
+		judgeSeedSequence(p, o)
+	case "concurrent":
+		judgeConcurrent(p, o)
 	case "seed_invalid":
 		l := lang(p[0][0])
 		if !setLang(o, l) {
@@ -165,6 +175,22 @@ func judge(class string, key []byte, o *fw.Obs) {
 			o.Fail("reparse", "ParseMnemonic(String()) = %+q, expected %+q", []string(m2), want)
 			return
 		}
+		// UnmarshalText from buffers the caller reuses afterwards (the raw input and the printed form)
+		for _, text := range []string{in, m1.String()} {
+			buf := []byte(text)
+			var m3 bip39.Mnemonic
+			var err error
+			if !o.Try("UnmarshalText", func() { err = m3.UnmarshalText(buf) }) {
+				return
+			}
+			for i := range buf {
+				buf[i] = 'X'
+			}
+			if err != nil || !eqWords(m3, want) {
+				o.Fail("aliasing", "UnmarshalText(%+q) then overwriting the caller's buffer: the mnemonic is now %+q (err=%v), expected %+q", text, []string(m3), err, want)
+				return
+			}
+		}
 		o.Count("parse ok")
 	default: // parse_idem
 		in := string(p[0])
@@ -198,6 +224,135 @@ func judge(class string, key []byte, o *fw.Obs) {
 		}
 		o.Count("parse idempotent")
 	}
+}
+
+// judgeSeedSequence: a valid sentence is accepted; the same sentence split into different elements (two
+// words in one element) and the same sentence after the word list was switched are invalid and must be
+// refused even though an identical printed form was accepted a moment ago; switching back accepts again.
+func judgeSeedSequence(p [][]byte, o *fw.Obs) {
+	l, other := lang(p[0][0]), lang(1-p[0][0])
+	ent, pass := p[1], string(p[2])
+	o.Nontrivial()
+	if !setLang(o, l) {
+		return
+	}
+	words := bip39m.Lang(l).Encode(ent)
+	want := bip39m.Seed(words, p[3])
+	call := func(m bip39.Mnemonic) ([]byte, error, bool) {
+		var got []byte
+		var err error
+		ok := o.Try("MnemonicToSeed", func() { got, err = bip39.MnemonicToSeed(m, pass) })
+		return got, err, ok
+	}
+	got, err, ok := call(bip39.Mnemonic(words))
+	if !ok {
+		return
+	}
+	if err != nil || !bytes.Equal(got, want) {
+		o.Fail("seed", "MnemonicToSeed of a valid %s sentence = %x, err=%v; expected %x", l, got, err, want)
+		return
+	}
+	// same printed form, different elements
+	merged := append(bip39.Mnemonic{words[0] + " " + words[1]}, words[2:]...)
+	if got, err, ok = call(merged); !ok {
+		return
+	}
+	if err == nil || got != nil {
+		o.Fail("invalid", "MnemonicToSeed of %d elements (the first is two words joined by a space, so the printed form equals the valid sentence just accepted) returned seed=%x err=%v", len(merged), got, err)
+		return
+	}
+	// the other word list
+	if !setLang(o, other) {
+		return
+	}
+	if got, err, ok = call(bip39.Mnemonic(words)); !ok {
+		return
+	}
+	if err == nil || got != nil {
+		o.Fail("invalid", "after SetWordList(%q), MnemonicToSeed of the %s sentence accepted before returned seed=%x err=%v (its words are not in the current list)", other, l, got, err)
+		return
+	}
+	if !setLang(o, l) {
+		return
+	}
+	if got, err, ok = call(bip39.Mnemonic(words)); !ok {
+		return
+	}
+	if err != nil || !bytes.Equal(got, want) {
+		o.Fail("seed", "after switching the word list back, MnemonicToSeed = %x, err=%v; expected %x", got, err, want)
+		return
+	}
+	o.Count("seed sequences with list switches")
+}
+
+// judgeConcurrent: MnemonicToEntropy / MnemonicToSeed of sentences of different lengths from several
+// goroutines at once (one word list); every result must equal the model's.
+func judgeConcurrent(p [][]byte, o *fw.Obs) {
+	l := lang(p[0][0])
+	o.Nontrivial()
+	if !setLang(o, l) {
+		return
+	}
+	r := fw.SubRng(int64(fw.GetU64(p[1])), "c09-concurrent")
+	list := bip39m.Lang(l)
+	type item struct {
+		words []string
+		ent   []byte
+		seed  []byte
+		valid bool
+	}
+	var items []item
+	for i := 0; i < 13; i++ {
+		ent := make([]byte, 16+4*i)
+		r.Read(ent)
+		w := list.Encode(ent)
+		it := item{words: w, ent: ent, valid: true}
+		if i%4 == 0 {
+			it.seed = bip39m.Seed(w, nil)
+		}
+		items = append(items, it)
+		bad := append([]string(nil), w...)
+		k := r.Intn(len(bad))
+		bad[k] = list.Words[(list.Index[bad[k]]+1+r.Intn(2046))%2048]
+		if _, v := list.Decode(bad); v != bip39m.OK {
+			items = append(items, item{words: bad})
+		}
+	}
+	const G = 8
+	var wg sync.WaitGroup
+	var bad atomic.Value
+	for g := 0; g < G; g++ {
+		wg.Add(1)
+		go func(g int) {
+			defer wg.Done()
+			defer func() {
+				if x := recover(); x != nil {
+					bad.Store(fmt.Sprintf("panic in a concurrent call: %v", x))
+				}
+			}()
+			for n := 0; n < 1500 && bad.Load() == nil; n++ {
+				it := items[(n*(g+1)+g)%len(items)]
+				got, err := bip39.MnemonicToEntropy(bip39.Mnemonic(it.words))
+				if it.valid && (err != nil || !bytes.Equal(got, it.ent)) || !it.valid && err == nil {
+					bad.Store(fmt.Sprintf("with %d goroutines decoding sentences of different lengths, MnemonicToEntropy(%d words) = %x, err=%v; valid=%v expected %x", G, len(it.words), got, err, it.valid, it.ent))
+					return
+				}
+				if it.seed != nil && n%64 == 0 {
+					s, err := bip39.MnemonicToSeed(bip39.Mnemonic(it.words), "")
+					if err != nil || !bytes.Equal(s, it.seed) {
+						bad.Store(fmt.Sprintf("with %d goroutines at work, MnemonicToSeed(%d words) = %x, err=%v; expected %x", G, len(it.words), s, err, it.seed))
+						return
+					}
+				}
+			}
+		}(g)
+	}
+	wg.Wait()
+	if b := bad.Load(); b != nil {
+		o.Fail("concurrent", "%s", b.(string))
+		return
+	}
+	o.Count("concurrent executions")
 }
 
 func isASCII(s string) bool {
@@ -257,6 +412,12 @@ func gen(g *fw.Gen) {
 				sep = byte(1 + g.Rng.Intn(len(seps)-1))
 			}
 			g.Emit("seed", fw.Pack([]byte{l}, ent, []byte{sep}, []byte(string(ln.S)), []byte(string(ln.N))))
+			if j%40 == int(l) {
+				g.Emit("seed_sequence", fw.Pack([]byte{l}, g.Bytes(16+4*g.Rng.Intn(13)), []byte(string(ln.S)), []byte(string(ln.N))))
+			}
+			if j%400 == int(l) {
+				g.Emit("concurrent", fw.Pack([]byte{l}, fw.U64(g.Rng.Uint64())))
+			}
 			if j%8 == int(l) {
 				// an invalid variant of the sentence
 				w := list.Encode(ent)
